@@ -350,8 +350,6 @@ def events_tree_strict(events, cfg):
                     if v is not None:
                         attrs[:] = [a for a in attrs if (a[0], a[1]) != (XSI, "nil")]
                 if v:
-                    if after_data:
-                        raise Reject("two text chunks in a row")
                     _add_text(kids, v)
                 after_data = True
                 i += 1
